@@ -224,6 +224,22 @@ CLAIMS = {
              "const char* arguments are C strings (and hold count characters where a count is passed); operator[] "
              "under its documented precondition",
         technique="static analysis: relational (linear inequality) abstract interpretation with inductive class invariant"),
+    "C11": dict(
+        level="other", engine="engine C (lin.py, bounds.py)",
+        text="The part of 'equals std::string cut off at the capacity' that is visible in the code, for all contents "
+             "and all in-domain argument values at once: every mutator of FixedString<L> (57 overloads: constructors, "
+             "assign/operator=, insert, erase, push_back/pop_back, append/operator+=, replace, clear, swap) is executed "
+             "symbolically on every path with an ordered log of its memmove/memcpy/memset/element writes; the new "
+             "length is proved to be min( L, length of the std::string result) and a symbolic position below the new "
+             "length is resolved backwards through the log and proved to hold exactly the byte std::string has there "
+             "(old text at the right offset / the right byte of the right source / the fill character) against a "
+             "per-family specification table; operator==/!= are decided by exhaustive truth tables (complementary, "
+             "== means equal length and equal bytes). Results of the comparing/searching observers are decided only "
+             "as far as the rules listed in the evidence go; sprintf's text and std::string-iterator overloads are not decided.",
+        note="trusted base: clang front end, extractor, cv/lin.py + cv/bounds.py + cv/boolshape.py, the std::string "
+             "specification table in cv/props/c11.py; sources do not alias the destination",
+        also=("engine B (boolshape.py)",),
+        technique="static analysis: symbolic execution with write-provenance log against a specification table; truth tables"),
     "C19": dict(
         level="proof", engine="engine C (lin.py, bounds.py)",
         text="Linear-inequality abstract interpretation (own exact Fourier-Motzkin entailment, no solver) of every "
